@@ -55,6 +55,7 @@ def dispatcher_state(d, queries=True):
         "j_next_t": list(d.job_next_available_time),
         "j_next_i": list(d.job_next_operation_index),
         "subscribers": [id(s) for s in d.subscribers],
+        "configured_filter": id(d.ready_operations_filter),
         "metadata": dict(d.schedule.metadata),
     }
     if queries:
